@@ -17,7 +17,8 @@ RULE = ('part "grid": EVERY site class (by reflection) x parameters (S <= 3, Nma
         'operators equal dense kron with JW of the left sites; part "car": on chains of <= 5 sites all pairs (sampled '
         'quadruples) of fermionic operators in every order go through TermList->MPOGraph->MPO, CouplingModel.add_coupling / '
         'add_multi_coupling and GroupedSite and are compared with explicit Jordan-Wigner matrices; {c_i, c_j^dagger} = delta_ij. '
-        'non-trivial = site with conserved charge or fermionic operator; distinct = configuration signature')
+        'non-trivial = site with conserved charge or fermionic operator; distinct = configuration signature'
+        ' Also: correlation functions (the C08 oracles) on fermionic chains, kron of member-site operators.')
 ASSUMPTIONS = ['textbook matrices in the documented state order of each site class', 'basis permutation `perm` as documented: leg index k holds standard state perm[k]']
 ANCHORS = {'tenpy/networks/site.py': ['*'], 'tenpy/networks/terms.py': ['*']}
 REQUIRED_COUNTERS = {'grid.configs': 40, 'grid.ops_checked': 300, 'grouped.configs': 20, 'car.pairs': 20, 'car.multi': 8,
